@@ -139,9 +139,14 @@ def run(ctx, prop=PROP, judge=judge_c04, title="peak connections in flight <= fa
             samples.append({"n": n, "fanout": f, "spurious_wakeups": ru.spur, "events": " ".join(ru.model_events())[:400], "peak": ru.peak})
         if nsched >= 5:
             break
+    nsig = 0
+    if prop == "C03" and nsched < 5:
+        nsig, sbad = interrupted_runs(ctx, eng, r, quick)
+        bad += sbad
     have_input = any(v["kind"] != "no-failing-input-found" for v in ctx.violations)
     vlib.report_proof_break(ctx, have_input)
     cov = vlib.proof_coverage(ctx, {
+        "runs_with_non_aborting_interrupts": nsig,
         "evaluations": len(runs), "distinct_nontrivial": len(set(c for c in cases if len(c) > 60)),
         "traces_validated_against_impl": nacc,
         "rule": "runs of the whole unmodified pdsh program (all sources, main renamed) under a token scheduler interposed at link time on pthread_*/poll/read/sleep/time/fputs/exit, with a scripted transport module loaded by pdsh's own loader; N in 1..9 targets, fanout 1..N+1, seeded random schedules with 0-4 spurious condition-variable wake-ups, plus for small N every schedule with a bounded number of deviations from the base policy (another thread, a spurious wake-up or a clock tick at any choice point); each trace must be a run of the Coq transition system and is judged for: " + title + "; distinct = distinct event trace",
@@ -150,6 +155,43 @@ def run(ctx, prop=PROP, judge=judge_c04, title="peak connections in flight <= fa
     return ctx.finish(cov, ["interleavings at the granularity of the wrapped calls (a data race between two plain loads/stores is invisible)",
                             "POSIX semantics of mutex/condvar implemented by the scheduler (spurious wake-ups included)",
                             "the transport is the scripted module; the kernel is not involved"])
+
+
+def interrupted_runs(ctx, eng, r, quick):
+    """'for every run': runs in which the user's interrupts do not abort pdsh (one ^C: status listing; ^C then ^Z
+    within a second: targets not yet started are cancelled; ^Z alone).  Judged for termination and exactly-once on
+    the targets that were started; which targets may be cancelled is C20's matter."""
+    nbad = 0
+    nrun = 250 if quick else 6000
+    for k in range(nrun):
+        n = r.range(2, 6)
+        f = r.range(1, n)
+        hosts = [("h%d" % i, "o", "A" + (b"o%d\n" % i).hex(), "-", 0) for i in range(n)]
+        a = r.range(0, 30 + 45 * n)
+        sigs = r.choice(["INT@%d", "INT@%d,TSTP@%d", "INT@%d,TSTP@%d", "TSTP@%d"])
+        sigs = sigs % ((a, a + r.range(1, 8)) if sigs.count("%") == 2 else (a,))
+        args = ["-R", "sim", "-f", str(f), "-w", "h[0-%d]" % (n - 1), "cmd"]
+        ru = eng.run(args, hosts, seed=r.next() % (1 << 31), spur=r.choice([0, 1]), sigs=sigs, ptick=0, env={"SCHED_MAXSTEP": "30000"}, timeout=10)
+        e = None
+        if ru.deadlock:
+            e = "deadlock: no thread can move and pdsh has not exited"
+        elif ru.exit is None:
+            e = "pdsh did not exit (code %s) %s" % (ru.code, ru.errtxt[-200:])
+        else:
+            for h, (c, d, kk) in ru.hoststats.items():
+                if not (h.startswith("h") and h[1:].isdigit() and int(h[1:]) < n):
+                    e = "a command was started for %s which is not a target" % h
+                elif c > 1 or d != c:
+                    e = "target %s: command started %d times, torn down %d times" % (h, c, d)
+        if e:
+            nbad += 1
+            rec = {"n": n, "f": f, "args": ru.args, "hosts": ru.hosts, "seed": ru.seed, "spur": ru.spur, "sigs": sigs,
+                   "schedule": [c for c in ru.choices if c != "sig"]}
+            ctx.violation("schedule", case=rec, expected="pdsh ends; every started target exactly once", observed=ru.summary(), engine="sched",
+                          detail=e + " (interrupts %s, not aborting); trace tail: " % sigs + " | ".join(ru.lines[-12:]))
+            if nbad >= 3:
+                break
+    return nrun, nbad
 
 
 def detect_recheck():
@@ -161,7 +203,7 @@ def replay(ctx, path):
     c = rec["case"]
     ctx.gen_params()
     eng = schedeng.Sched(ctx)
-    ru = eng.run(c["args"], [tuple(h) for h in c["hosts"]], seed=c["seed"], spur=c["spur"], replay=c["schedule"])
+    ru = eng.run(c["args"], [tuple(h) for h in c["hosts"]], seed=c["seed"], spur=c["spur"], replay=c["schedule"], sigs=c.get("sigs"))
     print("\n".join(ru.lines[-40:]))
     print(ru.summary())
     return 0
